@@ -1,6 +1,8 @@
 package main
 
 import (
+	"context"
+	"errors"
 	"fmt"
 	"math"
 	"math/big"
@@ -25,9 +27,45 @@ func (s *scriptTicker) Tick() int64 {
 	return v
 }
 
+// recording listener. `mode` says whether its callbacks return an error ('-' never, 'e' always, 'm' every other call):
+// an erroring listener must change neither the decisions nor what the OTHER listeners are told (C06: every transition and
+// every rejection is reported to each listener exactly once).
 type recListener struct {
-	idx int
-	log *[]string
+	idx   int
+	log   *[]string
+	mode  byte
+	calls int
+	env   *brkEnv
+}
+
+var errListener = errors.New("listener failed (harness)")
+
+// brkEnv: what the glue around the machine must preserve (checked by the Go monitor, tagged C06)
+type brkEnv struct {
+	cb    cbreaker.CircuitBreaker // breaker every callback must name (set once the constructor has returned)
+	early []cbreaker.CircuitBreaker
+	bad   string
+}
+
+func (e *brkEnv) fail(format string, a ...interface{}) {
+	if e.bad == "" {
+		e.bad = fmt.Sprintf(format, a...)
+	}
+}
+
+func (l *recListener) ret(cb cbreaker.CircuitBreaker) error {
+	if l.env != nil {
+		if l.env.cb == nil {
+			l.env.early = append(l.env.early, cb)
+		} else if cb != l.env.cb {
+			l.env.fail("listener %d was handed a different breaker than the one that was built", l.idx)
+		}
+	}
+	l.calls++
+	if l.mode == 'e' || (l.mode == 'm' && l.calls%2 == 1) {
+		return errListener
+	}
+	return nil
 }
 
 func kindStr(s cbreaker.CircuitState) string {
@@ -40,19 +78,57 @@ func kindStr(s cbreaker.CircuitState) string {
 	return "H"
 }
 
+// rate accessors of an EventCount: part/total evaluated in float64, -1 for an empty count (eventCount.go)
+func wantRate(part, total int64) float64 {
+	if total == 0 {
+		return -1
+	}
+	return float64(part) / float64(total)
+}
+
+func checkCount(c *cbreaker.EventCount) string {
+	s, f := c.Success(), c.Failure()
+	if c.Total() != s+f {
+		return fmt.Sprintf("EventCount %d/%d: Total() = %d", s, f, c.Total())
+	}
+	if got, want := c.SuccessRate(), wantRate(s, s+f); fbits(got) != fbits(want) {
+		return fmt.Sprintf("EventCount %d/%d: SuccessRate() = %v, want %v", s, f, got, want)
+	}
+	if got, want := c.FailureRate(), wantRate(f, s+f); fbits(got) != fbits(want) {
+		return fmt.Sprintf("EventCount %d/%d: FailureRate() = %v, want %v", s, f, got, want)
+	}
+	return ""
+}
+
 func (l *recListener) OnStateChanged(cb cbreaker.CircuitBreaker, state cbreaker.CircuitState) error {
 	*l.log = append(*l.log, fmt.Sprintf("S%d:%s", l.idx, kindStr(state)))
-	return nil
+	return l.ret(cb)
 }
 func (l *recListener) OnEventCountUpdated(cb cbreaker.CircuitBreaker, c *cbreaker.EventCount) error {
+	if c == nil {
+		*l.log = append(*l.log, fmt.Sprintf("N%d:nil", l.idx))
+		return l.ret(cb)
+	}
 	*l.log = append(*l.log, fmt.Sprintf("N%d:%d/%d", l.idx, c.Success(), c.Failure()))
-	return nil
+	if l.env != nil {
+		if msg := checkCount(c); msg != "" {
+			l.env.fail("count delivered to listener %d: %s", l.idx, msg)
+		}
+	}
+	return l.ret(cb)
 }
 func (l *recListener) OnRequestRejected(cb cbreaker.CircuitBreaker) error {
 	*l.log = append(*l.log, fmt.Sprintf("R%d", l.idx))
-	return nil
+	return l.ret(cb)
 }
 func (l *recListener) Stop() {}
+
+// recording logger (SetDefaultLogger): the log text belongs to no property; enabling it must not change anything else
+type recLogger struct{ info, warn, err int }
+
+func (l *recLogger) Info(string)               { l.info++ }
+func (l *recLogger) Warn(string, interface{})  { l.warn++ }
+func (l *recLogger) Error(string, interface{}) { l.err++ }
 
 type brkCfg struct {
 	thr                             float64
@@ -223,49 +299,217 @@ func (d *docMachine) canRequest() bool {
 	return false
 }
 
+// glue around the machine that a case exercises (part of the request line, token `env`, ignored by the model):
+// per-listener error mode, a default logger, a breaker name
+type brkGlue struct {
+	lmodes string // one of - e m per listener
+	logOn  bool
+	named  bool
+}
+
+func (g brkGlue) String() string {
+	lm := g.lmodes
+	if lm == "" {
+		lm = "0"
+	}
+	b := func(v bool) int {
+		if v {
+			return 1
+		}
+		return 0
+	}
+	return fmt.Sprintf("l=%s,log=%d,name=%d", lm, b(g.logOn), b(g.named))
+}
+
+func genGlue(k int) brkGlue {
+	g := brkGlue{logOn: rng.Intn(3) == 0, named: rng.Intn(3) == 0}
+	lm := make([]byte, k)
+	plain := rng.Intn(2) == 0
+	for i := range lm {
+		lm[i] = '-'
+		if !plain {
+			lm[i] = "-em"[rng.Intn(3)]
+		}
+	}
+	g.lmodes = string(lm)
+	return g
+}
+
+// Op alphabet of a breaker case (request token `ops`):
+//   c CanRequest()            s OnSuccess()            f OnFailure()
+//   x y z  Execute(ctx, fn) with fn returning (v,nil) / (nil,e) / (v,e): asked from the model as a CanRequest; the
+//          implementation side answers T iff the delegate ran (and its results came back unchanged), F iff it did not run and
+//          the error is ErrFailFast
+//   n      Execute(ctx, nil): returns (nil, nil) without consulting the breaker (no model step, no reading, no callback)
+func genBrkOps(nops int) []byte {
+	ops := make([]byte, nops)
+	pf := []int{20, 50, 80}[rng.Intn(3)]
+	execShare := []int{0, 40, 100}[rng.Intn(3)] // how many of the admission questions go through Execute
+	for i := range ops {
+		switch r := rng.Intn(100); {
+		case r < 25:
+			ops[i] = 'c'
+			if rng.Intn(100) < execShare {
+				ops[i] = "xyz"[rng.Intn(3)]
+			}
+		case r < 25+(75*pf)/100:
+			ops[i] = 'f'
+		default:
+			ops[i] = 's'
+		}
+		if execShare > 0 && rng.Intn(25) == 0 {
+			ops[i] = 'n'
+		}
+	}
+	return ops
+}
+
 func runBreaker(count int, args []string) {
+	defer cbreaker.SetDefaultLogger(nil)
 	for n := 0; n < count; n++ {
+		if len(args) == 0 && rng.Intn(16) == 0 {
+			eventCountCase()
+			continue
+		}
 		c := genBrkCfg()
 		nops := 1 + rng.Intn(60)
 		if rng.Intn(4) == 0 {
 			nops = 1 + rng.Intn(8)
 		}
-		ops := make([]byte, nops)
-		pf := []int{20, 50, 80}[rng.Intn(3)]
-		for i := range ops {
-			switch r := rng.Intn(100); {
-			case r < 25:
-				ops[i] = 'c'
-			case r < 25+(75*pf)/100:
-				ops[i] = 'f'
-			default:
-				ops[i] = 's'
-			}
-		}
+		ops := genBrkOps(nops)
+		g := genGlue(c.k)
 		start := []int64{0, 1000, -500, 1 << 40}[rng.Intn(4)]
 		if len(args) > 0 && args[0] == "wrap" {
 			// known finding F7: ticker values within a few windows of the int64 limits
 			start = []int64{math.MaxInt64 - 3*c.window - int64(rng.Intn(50)), math.MaxInt64 - c.open - int64(rng.Intn(20)), math.MinInt64 + int64(rng.Intn(int(c.window))+1)}[rng.Intn(3)]
 		}
 		ticks := genTicks(2+3*nops, c, start)
-		req := fmt.Sprintf("brk %s %d %d %d %d %d %d ops %s ticks %s", fbits(c.thr), c.minReq, c.trial, c.open, c.window, c.interval, c.k, string(ops), i64s(ticks))
-		impl, mon := execBreaker(c, ops, ticks)
+		req := fmt.Sprintf("brk %s %d %d %d %d %d %d ops %s ticks %s env %s", fbits(c.thr), c.minReq, c.trial, c.open, c.window, c.interval, c.k, string(ops), i64s(ticks), g)
+		impl, mon := execBreaker(c, g, ops, ticks)
+		if g.logOn {
+			stats["brk cases with a default logger"]++
+		}
+		if g.named {
+			stats["brk cases with a breaker name"]++
+		}
+		if strings.ContainsAny(g.lmodes, "em") {
+			stats["brk cases with a listener returning errors"]++
+		}
 		emit(req, impl, mon)
 	}
 }
 
-func execBreaker(c brkCfg, ops []byte, ticks []int64) (impl, mon string) {
+// EventCount accessors (eventCount.go) mapped onto requests the F64 model already answers: the rate of a non-empty count
+// is `f64 div float64(part) float64(total)` (operands converted by the harness), the rate of an empty count is the number -1.
+func eventCountCase() {
+	small := []int64{0, 0, 1, 2, 3, 7, 10, 100, 1 << 20, 1<<53 - 1, 1 << 53, 1<<53 + 1, 1 << 61}
+	s, f := small[rng.Intn(len(small))], small[rng.Intn(len(small))]
+	if rng.Intn(3) == 0 {
+		s, f = int64(rng.Intn(1000)), int64(rng.Intn(1000))
+	}
+	e := cbreaker.NewEventCount(s, f)
+	if rng.Intn(8) == 0 {
+		e, s, f = cbreaker.EventCountZero, 0, 0
+	}
+	stats["brk EventCount accessor cases"]++
+	part, got, what := f, e.FailureRate(), "FailureRate"
+	if rng.Intn(2) == 0 {
+		part, got, what = s, e.SuccessRate(), "SuccessRate"
+	}
+	total := s + f
+	req := fmt.Sprintf("f64 div %s %s", fbits(float64(part)), fbits(float64(total)))
+	if total == 0 {
+		req = "f64 ofi -1"
+	}
+	mon := "ok"
+	switch {
+	case e.Success() != s || e.Failure() != f || e.Total() != total:
+		mon = fmt.Sprintf("FAIL C06 NewEventCount(%d,%d): Success/Failure/Total = %d/%d/%d", s, f, e.Success(), e.Failure(), e.Total())
+	case total == 0 && got != -1:
+		mon = fmt.Sprintf("FAIL C06 %s() of an empty count = %v, want -1", what, got)
+	case total != 0 && total < 1<<53:
+		// exactly representable operands: the quotient is the correctly rounded exact ratio
+		want, _ := new(big.Rat).SetFrac64(part, total).Float64()
+		if got != want {
+			mon = fmt.Sprintf("FAIL C06 %s() of %d/%d = %v, the exact ratio rounds to %v", what, s, f, got, want)
+		}
+	case total != 0 && !(got >= 0 && got <= 1):
+		mon = fmt.Sprintf("FAIL C06 %s() of %d/%d = %v outside [0,1]", what, s, f, got)
+	}
+	emit(req, fbits(got), mon)
+}
+
+type ctxKey struct{}
+
+var errDelegate = errors.New("delegate failed (harness)")
+
+// one admission question through Execute; returns T / F / ?<what went wrong>
+func viaExecute(cb cbreaker.CircuitBreaker, op byte) string {
+	ctx := context.WithValue(context.Background(), ctxKey{}, op)
+	val := &struct{ op byte }{op}
+	var wantR interface{} = val
+	var wantE error
+	switch op {
+	case 'y':
+		wantR, wantE = nil, errDelegate
+	case 'z':
+		wantE = errDelegate
+	}
+	ran, sameCtx := 0, true
+	r, err := cb.Execute(ctx, func(c context.Context) (interface{}, error) {
+		ran++
+		sameCtx = c == ctx
+		return wantR, wantE
+	})
+	switch {
+	case ran == 1 && sameCtx && r == wantR && err == wantE:
+		return "T"
+	case ran == 0 && r == nil && err == cbreaker.ErrFailFast:
+		return "F"
+	case ran > 1:
+		return fmt.Sprintf("?delegate-ran-%d-times", ran)
+	case ran == 1 && !sameCtx:
+		return "?delegate-got-another-context"
+	case ran == 1:
+		return fmt.Sprintf("?delegate-ran-but-Execute-returned(%v,%v)-not-its-results", r, err)
+	}
+	return strings.ReplaceAll(fmt.Sprintf("?delegate-not-run-but-Execute-returned(%v,%v)-not-ErrFailFast", r, err), " ", "_")
+}
+
+func execBreaker(c brkCfg, g brkGlue, ops []byte, ticks []int64) (impl, mon string) {
 	tk := &scriptTicker{script: ticks}
 	var log []string
+	env := &brkEnv{}
+	var lg *recLogger
+	if g.logOn {
+		lg = &recLogger{}
+		cbreaker.SetDefaultLogger(lg)
+	} else {
+		cbreaker.SetDefaultLogger(nil)
+	}
 	b := cbreaker.NewCircuitBreakerBuilder().SetTicker(tk).SetFailureRateThreshold(c.thr).SetMinimumRequestThreshold(c.minReq).
 		SetTrialRequestInterval(time.Duration(c.trial)).SetCircuitOpenWindow(time.Duration(c.open)).
 		SetCounterSlidingWindow(time.Duration(c.window)).SetCounterUpdateInterval(time.Duration(c.interval))
+	var name *cbreaker.Name
+	if g.named {
+		name = &cbreaker.Name{Namespace: "ns", Subsystem: "sub", Name: fmt.Sprint("b", c.k)}
+		b.Name(name)
+	}
 	for i := 0; i < c.k; i++ {
-		b.AddListener(&recListener{idx: i, log: &log})
+		b.AddListener(&recListener{idx: i, log: &log, mode: g.lmodes[i], env: env})
 	}
 	cb, err := b.Build()
 	if err != nil {
 		return "err", "FAIL C20 valid breaker configuration rejected: " + err.Error()
+	}
+	env.cb = cb
+	for _, e := range env.early {
+		if e != cb {
+			env.fail("a constructor callback was handed a different breaker than the one Build returned")
+		}
+	}
+	if cb.Name() != name {
+		env.fail("Name() = %v, the builder was given %v", cb.Name(), name)
 	}
 	// reference machine
 	dtk := &scriptTicker{script: ticks}
@@ -283,9 +527,12 @@ func execBreaker(c brkCfg, ops []byte, ticks []int64) (impl, mon string) {
 		doc.log = doc.log[:0]
 		r := "-"
 		dr := "-"
+		stats["brk op "+string(op)+" in state "+doc.kind]++
 		switch op {
-		case 'c':
-			if cb.CanRequest() {
+		case 'c', 'x', 'y', 'z':
+			if op != 'c' {
+				r = viaExecute(cb, op)
+			} else if cb.CanRequest() {
 				r = "T"
 			} else {
 				r = "F"
@@ -294,6 +541,13 @@ func execBreaker(c brkCfg, ops []byte, ticks []int64) (impl, mon string) {
 				dr = "T"
 			} else {
 				dr = "F"
+			}
+		case 'n':
+			before := tk.i
+			if rr, e := cb.Execute(context.Background(), nil); rr != nil || e != nil {
+				r = strings.ReplaceAll(fmt.Sprintf("?Execute(nil)-returned(%v,%v)", rr, e), " ", "_")
+			} else if tk.i != before {
+				r = "?Execute(nil)-read-the-ticker"
 			}
 		case 's':
 			cb.OnSuccess()
@@ -311,6 +565,12 @@ func execBreaker(c brkCfg, ops []byte, ticks []int64) (impl, mon string) {
 	}
 	if mon == "ok" && tk.i != dtk.i {
 		mon = fmt.Sprintf("FAIL C06 implementation consumed %d ticker readings, documented machine %d", tk.i, dtk.i)
+	}
+	if mon == "ok" && cb.Name() != name {
+		env.fail("Name() changed to %v", cb.Name())
+	}
+	if mon == "ok" && env.bad != "" {
+		mon = "FAIL C06 " + env.bad
 	}
 	return fmt.Sprintf("%d [%s] %s", tk.i, initCbs, strings.Join(outs, ";")), mon
 }
